@@ -723,6 +723,10 @@ class XmlPeriod(UserString):
 
         return NotImplemented
 
+    def __hash__(self) -> int:
+        """Return hash(self), periods are valid dataclass default values."""
+        return hash(self._period)
+
 
 class XmlHexBinary(bytes):
     """Subclass bytes to infer base16 format.
